@@ -113,6 +113,13 @@ def run_job(job, rec):
         pred_true = model(model.theta)
         base = 10.0 ** rng.uniform(-6, 6)
         s = base * 10.0 ** rng.uniform(-1, 1, size=n)
+        spread = str(rng.choice(["wide", "wide", "equal", "nearly_equal"]))
+        if spread == "equal":
+            s = np.full(n, base)
+        elif spread == "nearly_equal":
+            # distinct uncertainties that agree to 5..12 digits (a calibrated instrument): each datum still has its own
+            s = base * (1.0 + rng.uniform(-1, 1, size=n) * 10.0 ** rng.uniform(-12, -5))
+        rec.count("sigma_spread:" + spread)
         regime = str(rng.choice(["core", "mixed", "far_tail"]))
         if regime == "core":
             zres = rng.normal(size=n)
